@@ -11,6 +11,7 @@ from . import seam, snapshot, world as W
 from .catalogue import OPS
 
 MAX_OUT = 4
+MAX_POOL_ELEMS = 200_000
 HARNESS_TIMEOUT = 120.0
 
 
@@ -120,6 +121,8 @@ def store_outputs(world: W.World, step: dict, out: Outcome) -> None:
         return
     vals = flatten_outputs(out.value)
     for slot, v in zip(step["out"], vals):
+        if isinstance(v, Tensor) and v.array.size > MAX_POOL_ELEMS:
+            continue   # results of this size are answers, not operands: snapshots of the pool must stay cheap
         world.put(slot, v, f"step{step['i']}:{step['op']}")
 
 
